@@ -11,7 +11,13 @@ theorem upd_other (f : Nat → HPc) {i j : Nat} (v : HPc) (h : j ≠ i) : upd f 
 
 /-- The handler will certainly perform a `send` later. -/
 def HPc.willSend : HPc → Bool
-  | .oSetIc | .cWrite | .sLoadIc _ | .sStoreRt _ | .sFull _ | .sDrain _ | .sSend _ => true
+  | .hInit .open true | .oSetIc | .sLoadIc _ | .sStoreRt _ | .sFull _ | .sDrain _ | .sSend _ => true
+  | _ => false
+
+/-- Program counters that exist only in other versions of `did_open` (store after the send, store
+before the look-ups). -/
+def HPc.foreign : HPc → Bool
+  | .oSetIcLate | .oSetIcEarly _ => true
   | _ => false
 
 /-- The handler is past its `retrigger_compilation.store(true)` and before the end of its `send`. -/
@@ -93,7 +99,7 @@ def Pend (s : State) : Prop :=
 
 /-- Invariant behind (a). -/
 structure InvA (s : State) : Prop where
-  noLate : ∀ i, s.h i ≠ .oSetIcLate
+  noLate : ∀ i, (s.h i).foreign = false
   ic : s.ic = true → s.chan = true ∨ s.wpc.pre = true ∨ AnyH HPc.willSend s.h
   ls : s.opened = true → s.ls ≠ .uninit ∨ s.chan = true ∨ s.wpc.preLs = true ∨ AnyH HPc.willSend s.h
   opened : ∀ i, s.h i ≠ .absent → s.opened = true
@@ -113,7 +119,7 @@ theorem AnyH.sendSoon_willSend {f : Nat → HPc} (h : AnyH HPc.sendSoon f) : Any
   obtain ⟨i, hi⟩ := h; exact ⟨i, SwayVerif.LspSched.sendSoon_willSend hi⟩
 
 theorem invA_init : InvA init := by
-  constructor <;> simp [init, HPc.sn?]
+  constructor <;> simp [init, HPc.sn?, HPc.foreign]
 
 theorem invB_init : InvB init := by
   constructor <;> simp [init]
@@ -165,8 +171,8 @@ theorem invB_hstep {c : Cfg} {s t : State} {i : Nat} {l : HLabel}
   all_goals (constructor <;> simp only [anyH_upd] <;> simp only [anyH_split i] at hrt hsnap hlast ⊢ <;>
     simp_all [WPc.compiling, HPc.willSend, HPc.sendSoon])
   all_goals (first | done |
-    (rename_i k _; cases k <;> simp_all [spawnPc, waitStart] <;> grind) |
-    grind [spawnPc, waitStart, afterSend, goWait])
+    (rename_i k _; cases k <;> simp_all [spawnPc, afterLookup, waitStart] <;> grind) |
+    grind [spawnPc, afterLookup, waitStart, afterSend, goWait])
 
 theorem invA_wstep {c : Cfg} {s t : State} {l : WLabel}
     (hi : InvA s) (hl : wstep c s l = some t) : InvA t := by
@@ -194,19 +200,26 @@ macro "inv_a_handler" hl:ident h1:ident h2:ident h3:ident h4:ident h5:ident h6:i
   all_goals (try (have hji' : j ≠ $i := fun h => hji h.symm))
   all_goals (try simp only [anyH_upd, Pend])
   all_goals (try simp only [anyH_split $i, Pend] at $h2:ident $h3:ident $h6:ident h6i ⊢)
-  all_goals (first | (simp_all [WPc.pre, WPc.preLs, HPc.willSend, HPc.sn?, upd_other]; done) | skip)
-  all_goals (first | (grind [WPc.pre, WPc.preLs, HPc.willSend, HPc.sn?, upd_other, upd_same, spawnPc, afterSend, waitStart, goWait]; done) | skip)
-  all_goals (simp only [upd_same]; (try unfold spawnPc); (try unfold afterSend); split <;>
-    simp_all [waitStart, HPc.sn?, HPc.willSend])))
+  all_goals (first | (simp_all [WPc.pre, WPc.preLs, HPc.willSend, HPc.foreign, HPc.sn?, upd_other]; done) | skip)
+  all_goals (first | (grind [WPc.pre, WPc.preLs, HPc.willSend, HPc.foreign, HPc.sn?, upd_other, upd_same, spawnPc, afterLookup, afterSend, waitStart, goWait]; done) | skip)
+  all_goals (simp only [upd_same]; (try unfold spawnPc); (try unfold afterLookup); (try unfold afterSend); split <;>
+    simp_all [waitStart, HPc.sn?, HPc.willSend, HPc.foreign])))
 
 section
 set_option linter.unusedSectionVars false
 variable {c : Cfg} {s t : State} {i : Nat}
   (hc1 : c.notifiedFirst = true) (hc2 : c.openStoreFirst = true) (hc3 : c.openedFirst = true)
+  (hc4 : c.openStoreEarly = false)
   (hw : InvW s) (hi : InvA s)
-include hc1 hc2 hc3 hw hi
+include hc1 hc2 hc3 hc4 hw hi
 
-theorem invA_h_spawn {k : Kind} (hl : hstep c s i (.spawn k) = some t) : InvA t := by
+theorem invA_h_spawn {k : Kind} {v : Bool} (hl : hstep c s i (.spawn k v) = some t) : InvA t := by
+  obtain ⟨h1, h2, h3, h4, h5, h6⟩ := hi
+  inv_a_handler hl h1 h2 h3 h4 h5 h6 hw i
+theorem invA_h_lookup (hl : hstep c s i .lookup = some t) : InvA t := by
+  obtain ⟨h1, h2, h3, h4, h5, h6⟩ := hi
+  inv_a_handler hl h1 h2 h3 h4 h5 h6 hw i
+theorem invA_h_fail (hl : hstep c s i .fail = some t) : InvA t := by
   obtain ⟨h1, h2, h3, h4, h5, h6⟩ := hi
   inv_a_handler hl h1 h2 h3 h4 h5 h6 hw i
 theorem invA_h_setIc (hl : hstep c s i .setIc = some t) : InvA t := by
@@ -248,19 +261,21 @@ theorem invA_h_wake (hl : hstep c s i .wake = some t) : InvA t := by
 
 theorem invA_hstep {l : HLabel} (hl : hstep c s i l = some t) : InvA t := by
   cases l
-  · exact invA_h_spawn hc1 hc2 hc3 hw hi hl
-  · exact invA_h_setIc hc1 hc2 hc3 hw hi hl
-  · exact invA_h_write hc1 hc2 hc3 hw hi hl
-  · exact invA_h_loadIc hc1 hc2 hc3 hw hi hl
-  · exact invA_h_storeRt hc1 hc2 hc3 hw hi hl
-  · exact invA_h_isFull hc1 hc2 hc3 hw hi hl
-  · exact invA_h_tryRecv hc1 hc2 hc3 hw hi hl
-  · exact invA_h_send hc1 hc2 hc3 hw hi hl
-  · exact invA_h_snap hc1 hc2 hc3 hw hi hl
-  · exact invA_h_pLoadIc hc1 hc2 hc3 hw hi hl
-  · exact invA_h_readLs hc1 hc2 hc3 hw hi hl
-  · exact invA_h_pIsEmpty hc1 hc2 hc3 hw hi hl
-  · exact invA_h_wake hc1 hc2 hc3 hw hi hl
+  · exact invA_h_spawn hc1 hc2 hc3 hc4 hw hi hl
+  · exact invA_h_lookup hc1 hc2 hc3 hc4 hw hi hl
+  · exact invA_h_fail hc1 hc2 hc3 hc4 hw hi hl
+  · exact invA_h_setIc hc1 hc2 hc3 hc4 hw hi hl
+  · exact invA_h_write hc1 hc2 hc3 hc4 hw hi hl
+  · exact invA_h_loadIc hc1 hc2 hc3 hc4 hw hi hl
+  · exact invA_h_storeRt hc1 hc2 hc3 hc4 hw hi hl
+  · exact invA_h_isFull hc1 hc2 hc3 hc4 hw hi hl
+  · exact invA_h_tryRecv hc1 hc2 hc3 hc4 hw hi hl
+  · exact invA_h_send hc1 hc2 hc3 hc4 hw hi hl
+  · exact invA_h_snap hc1 hc2 hc3 hc4 hw hi hl
+  · exact invA_h_pLoadIc hc1 hc2 hc3 hc4 hw hi hl
+  · exact invA_h_readLs hc1 hc2 hc3 hc4 hw hi hl
+  · exact invA_h_pIsEmpty hc1 hc2 hc3 hc4 hw hi hl
+  · exact invA_h_wake hc1 hc2 hc3 hc4 hw hi hl
 end
 
 /-! ## Reachable states satisfy the invariants -/
@@ -274,13 +289,14 @@ theorem reach_invW {c : Cfg} {s : State} (h : Reachable c s) : InvW s := by
     · exact invW_hstep ih hl
 
 theorem reach_invA {c : Cfg} {s : State} (hc1 : c.notifiedFirst = true)
-    (hc2 : c.openStoreFirst = true) (hc3 : c.openedFirst = true) (h : Reachable c s) : InvA s := by
+    (hc2 : c.openStoreFirst = true) (hc3 : c.openedFirst = true) (hc4 : c.openStoreEarly = false)
+    (h : Reachable c s) : InvA s := by
   induction h with
   | init => exact invA_init
   | step hr hs ih =>
     rcases hs with ⟨l, hl⟩ | ⟨i, l, hl⟩
     · exact invA_wstep ih hl
-    · exact invA_hstep hc1 hc2 hc3 (reach_invW hr) ih hl
+    · exact invA_hstep hc1 hc2 hc3 hc4 (reach_invW hr) ih hl
 
 theorem reach_invB {c : Cfg} {s : State} (hc : c.clearAtRecv = true) (h : Reachable c s) :
     InvB s := by
@@ -322,14 +338,14 @@ theorem waiting_of_waitingB {s : State} (h : 0 < waitingB s) : ∃ i, Waiting s 
 
 /-- `Quiescent` says exactly that nothing can happen except the arrival of a new client event. -/
 theorem quiescent_iff_only_spawn {c : Cfg} {s : State} :
-    Quiescent s ↔ (∀ l, wstep c s l = none) ∧ (∀ i l, (∀ k, l ≠ .spawn k) → hstep c s i l = none) := by
+    Quiescent s ↔ (∀ l, wstep c s l = none) ∧ (∀ i l, (∀ k v, l ≠ .spawn k v) → hstep c s i l = none) := by
   constructor
   · rintro ⟨hw, hc, hq⟩
     refine ⟨fun l => ?_, fun i l hl => ?_⟩
     · cases l <;> simp [wstep, hw, hc]
     · have hqi := hq i
       cases l
-      case spawn k => exact absurd rfl (hl k)
+      case spawn k v => exact absurd rfl (hl k v)
       all_goals (simp only [hstep]; split <;> simp_all [HPc.quiet])
   · rintro ⟨hw, hh⟩
     have hidle : s.wpc = .idle := by
@@ -355,21 +371,26 @@ theorem quiescent_iff_only_spawn {c : Cfg} {s : State} :
     case absent => rfl
     case done => rfl
     case pAwait sn =>
-      have := hh i .wake (by intro k; simp)
+      have := hh i .wake (by intro k v; simp)
       simp [hstep, hp] at this
       simp [HPc.quiet, this]
-    case oSetIc => have := hh i .setIc (by intro k; simp); simp [hstep, hp] at this
-    case cWrite => have := hh i .write (by intro k; simp); simp [hstep, hp] at this
-    case sLoadIc k => have := hh i .loadIc (by intro k; simp); simp [hstep, hp] at this
-    case sStoreRt k => have := hh i .storeRt (by intro k; simp); simp [hstep, hp] at this
-    case sFull k => have := hh i .isFull (by intro k; simp); simp [hstep, hp] at this
-    case sDrain k => have := hh i .tryRecv (by intro k; simp); simp [hstep, hp, hchan] at this
-    case sSend k => have := hh i .send (by intro k; simp); simp [hstep, hp, hchan] at this
-    case oSetIcLate => have := hh i .setIc (by intro k; simp); simp [hstep, hp] at this
-    case pSnap => have := hh i .snap (by intro k; simp); simp [hstep, hp] at this
-    case pLoadIc sn => have := hh i .pLoadIc (by intro k; simp); simp [hstep, hp] at this
-    case pReadLs sn => have := hh i .readLs (by intro k; simp); simp [hstep, hp] at this
-    case pEmpty sn => have := hh i .pIsEmpty (by intro k; simp); simp [hstep, hp] at this
+    case hInit k v =>
+      cases v
+      · have := hh i .fail (by intro k v; simp); simp [hstep, hp] at this
+      · have := hh i .lookup (by intro k v; simp); simp [hstep, hp] at this
+    case oSetIcEarly v => have := hh i .setIc (by intro k v; simp); simp [hstep, hp] at this
+    case oSetIc => have := hh i .setIc (by intro k v; simp); simp [hstep, hp] at this
+    case cWrite => have := hh i .write (by intro k v; simp); simp [hstep, hp] at this
+    case sLoadIc k => have := hh i .loadIc (by intro k v; simp); simp [hstep, hp] at this
+    case sStoreRt k => have := hh i .storeRt (by intro k v; simp); simp [hstep, hp] at this
+    case sFull k => have := hh i .isFull (by intro k v; simp); simp [hstep, hp] at this
+    case sDrain k => have := hh i .tryRecv (by intro k v; simp); simp [hstep, hp, hchan] at this
+    case sSend k => have := hh i .send (by intro k v; simp); simp [hstep, hp, hchan] at this
+    case oSetIcLate => have := hh i .setIc (by intro k v; simp); simp [hstep, hp] at this
+    case pSnap => have := hh i .snap (by intro k v; simp); simp [hstep, hp] at this
+    case pLoadIc sn => have := hh i .pLoadIc (by intro k v; simp); simp [hstep, hp] at this
+    case pReadLs sn => have := hh i .readLs (by intro k v; simp); simp [hstep, hp] at this
+    case pEmpty sn => have := hh i .pIsEmpty (by intro k v; simp); simp [hstep, hp] at this
 /-! ## Schedules -/
 
 theorem act_step {c : Cfg} {s t : State} {a : Act} (h : act c s a = some t) : Step c s t := by
